@@ -3,11 +3,12 @@ from props import standard_check
 
 def check_C16(tier, seed):
     return standard_check(
-        "C16", tier, seed, "wire", ["c16_xor", "c16_int", "c16_rows"],
-        trusted=["bitbuffer 0.10 LittleEndian bit order and write_int truncation (modelled as bits_of); capnp packing not modelled (bytes compared before/after it)"],
+        "C16", tier, seed, "wire", ["c16_xor", "c16_int", "c16_rows", "c16_event_ser", "c16_event_de"],
+        trusted=["bitbuffer 0.10 LittleEndian bit order and write_int truncation (modelled as bits_of); capnp packing not modelled (fields compared on either side of it); the event-buffer message is modelled at capnp field level (Model/EventWire.v)"],
         assumptions=["floats are their 64-bit patterns", "sequence length < 2^64"],
         rule="seeded generator over 9 float-sequence classes x mantissa None/0..52 x 8 max_regret values x optional truncation; "
-             "a case is non-trivial when the sequence has >= 2 values; distinct by hash of the s-expression input")
+             "a case is non-trivial when the sequence has >= 2 values; distinct by hash of the s-expression input; integer columns over 12 classes around the i8/i16/i32 delta edges; "
+             "row histories with late starts, gaps and int/float mixing; event buffers of 0-3 tables over all 7 column representations and hand-built messages (regular, ragged sparse lists, repeated names)")
 
 
 def check_C17(tier, seed):
@@ -46,12 +47,17 @@ CLAIMED = {
         technique="Coq proof over encoder model + regenerated error/handler tables + loopback HTTP differential",
         design_ref="5/C17"),
     "C16": dict(
-        text="Machine-checked proof (Coq 8.16) that the XOR float coder model round-trips every list of 64-bit patterns "
-             "bit-exactly for every max_regret, that the encoder cannot panic below max_regret = u32::MAX-62, and that a "
-             "reduced mantissa keeps sign, exponent and the requested leading mantissa bits; the model is tied to the Rust "
-             "coder by a byte-level differential (encoded bytes and decoded values) on every run.",
-        note="Trusted: Coq kernel, extraction (ExtrOcamlBasic), OCaml/Rust glue, bitbuffer bit order as modelled; capnp packing "
-             "is not modelled.",
+        text="Machine-checked proof (Coq 8.16) that (a) the XOR float coder model round-trips every list of 64-bit patterns "
+             "bit-exactly for every max_regret, cannot panic below max_regret = u32::MAX-62, and with a reduced mantissa keeps sign, "
+             "exponent and the requested leading mantissa bits; (b) integer response columns decode to themselves through whichever of the "
+             "eight layouts the encoder picks, with no failing narrowing; (c) the client row API denotes, after ANY accepted sequence of rows, "
+             "exactly the pushed cells row for row (int+float degradation only), and rejects exactly the stated pushes; (d) the binary "
+             "event-buffer message, modelled at capnp field level, is lossless for every column representation and every buffer with distinct "
+             "table / column names, with the reader's treatment of ragged sparse lists and repeated names specified. Each model is tied to the "
+             "Rust code on every run: byte-level differential for the XOR coder, value differentials for the integer codec and the row API, and for "
+             "the message both directions (the real writer's bytes taken apart field by field; hand-built messages through the real reader).",
+        note="Trusted: Coq kernel, extraction (ExtrOcamlBasic), OCaml/Rust glue, bitbuffer bit order as modelled; capnp's packed byte encoding "
+             "is not modelled (fields are compared on either side of it).",
         technique="Coq proof of codec round-trip over an executable model + byte-level differential correspondence",
         design_ref="5/C16"),
 }
